@@ -35,7 +35,8 @@ ACTS_SMALL = ["keep", "del", "src1", "src2", "rerun", "out_edit", "out_edit2", "
 ACTS_MD = ["keep", "del", "src1", "src2", "src3", "src4", "md_edit", "att_add", "att_del", "att_edit",
            "att_rename", "id"]
 ACTS_CONFLICT = ["src1", "src2", "del", "out_edit", "out_edit2", "md_edit", "rerun"]
-INS_SIDE = {"l": [None, ("N1", 0), ("N2", 1), ("N1", 1)], "r": [None, ("N1s", 0), ("N2", 1), ("Nm", 0), ("N1", 1)]}
+INS_SIDE = {"l": [None, ("N1", 0), ("N2", 1), ("N1", 1), ("NmA", 0)],
+            "r": [None, ("N1s", 0), ("N2", 1), ("Nm", 0), ("N1", 1), ("NmB", 0)]}
 
 
 def mk_args(merge_strategy="inline", input_strategy=None, output_strategy=None,
@@ -312,6 +313,8 @@ CONFLICT_SCRIPTS = [
     (("codeJobj",), ("out_edit",), ("out_edit2",), {}, {}),
     (("md",), ("src1",), ("src2",), {}, {}),
     (("codeS",), ("src1",), ("src2",), {}, {}),
+    (("codeA",), ("keep",), ("keep",), {0: "NmA"}, {0: "NmB"}),  # similar inserts, attachments differ
+    ((), (), (), {0: "NmA"}, {0: "NmB"}),                        # empty base, both add
 ]
 
 
@@ -755,7 +758,7 @@ STUBS = ["nbdime.prettyprint.which -> answers according to the tool selector (gi
 BOUNDS = {
     "quick": {
         "default-strategy scripts": "one-cell bases over 8 templates: (i) every local action x every remote action (17 code / 11 markdown actions), (ii) every insertion combination (4 x 5) x {keep, del, src1}^2, (iii) notebook-level actions {keep, md_edit, md_add, md_del, minor}^2 on two templates; two-cell base codeA+codeB x 6 actions per cell and side; ids on/off",
-        "strategy product": "19 conflict-prone script pairs x (4 merge x 5 input x 7 output strategies x transients on/off + mergetool) x {git, diff3, builtin}",
+        "strategy product": "21 conflict-prone script pairs x (4 merge x 5 input x 7 output strategies x transients on/off + mergetool) x {git, diff3, builtin}",
         "leaves": "symbolic: execution counts, metadata values (any JSON scalar type), JSON payload numbers, nbformat_minor of each notebook (0..4, or 5 with ids)",
     },
     "thorough": {
